@@ -71,6 +71,87 @@ def restoreOn (cfg : Cfg) (target : Option Port) (d : PortDoc) : Except EntryErr
 def restoreEntry (cfg : Cfg) (b : Option Port) (d : PortDoc) : Except EntryErr (Option Port) :=
   restoreOn cfg (afterReset b) d
 
+/-- the port that the creation step of the loop body leaves registered under the entry's id, whatever happens to the
+attributes afterwards: a virtual port is added before its attributes are applied -/
+def createdFor (cfg : Cfg) (target : Option Port) (d : PortDoc) : Option Port :=
+  match target with
+  | some p => some p
+  | none =>
+    if d.virtual then
+      match d.vdef with
+      | some vd => some (setAttr cfg (fresh (vportDef cfg.hist vd)) "enabled" (.bool true)).1
+      | none => none
+    else none
+
+/-! ### the checked assignment of expressions (circular dependencies)
+
+`attr_set_expression` runs `check_loops` (C04) against the expressions the OTHER ports carry at that moment. The check is
+a parameter here: `lc m id c` = "assigning canonical text `c` to port `id` closes a loop, `m x` being the expression text
+port `x` currently has (`""` = none / no such port)". -/
+
+abbrev LoopCheck := (String → String) → String → String → Bool
+
+def exprText (p : Option Port) : String :=
+  match p with
+  | some q => (match q.attrs "expression" with | some (.str t) => t | _ => "")
+  | none => ""
+
+def exprMap (ports : String → Option Port) : String → String := fun id => exprText (ports id)
+
+/-- the non-empty expression an entry assigns, in canonical form -/
+def entryExpr (cfg : Cfg) (d : PortDoc) : Option String :=
+  match lookupF "expression" d.attrs with
+  | some (.str t) => if t = "" then none else cfg.canon .expr t
+  | _ => none
+
+/-- the entry's expression is refused as a circular dependency (only ports that have an expression attribute run the
+check) -/
+def loopRefused (cfg : Cfg) (lc : LoopCheck) (m : String → String) (target : Option Port) (d : PortDoc) : Bool :=
+  match createdFor cfg target d with
+  | some p => (p.attrs "expression").isSome &&
+      (match entryExpr cfg d with | some c => lc m d.id c | none => false)
+  | none => false
+
+/-- loop body of `put_ports` for one entry with the circular-dependency check of the expression assignment -/
+def restoreChk (cfg : Cfg) (lc : LoopCheck) (m : String → String) (target : Option Port) (d : PortDoc) :
+    Except EntryErr (Option Port) :=
+  if loopRefused cfg lc m target d then .error .invalidField else restoreOn cfg target d
+
+/-- repaired `put_ports`: the expression of every port that remains is cleared before the document is applied (the
+unrepaired code leaves the target's expressions in place: `port.reset()` = `load_from_data({})` resets nothing) -/
+def clearExpr (clearFirst : Bool) (p : Port) : Port :=
+  if clearFirst then
+    { p with attrs := fun n => if n = "expression" then (p.attrs n).map (fun _ => AVal.str "") else p.attrs n }
+  else p
+
+/-- the port registered under an id when the loop over the document starts -/
+def startPort (clearFirst : Bool) (b : Option Port) : Option Port := (afterReset b).map (clearExpr clearFirst)
+
+/-- references `$id` of an expression text -/
+def refsOf (t : String) : List String :=
+  let isId (c : Char) : Bool := c.isAlphanum || c == '_' || c == '.' || c == '-'
+  let rec go (cs : List Char) (acc : List String) : List String :=
+    match cs with
+    | [] => acc.reverse
+    | c :: r =>
+      if c == '$' then
+        let idc := r.takeWhile isId
+        go r (if idc.isEmpty then acc else String.ofList idc :: acc)
+      else go r acc
+  go t.toList []
+
+/-- `check_loops` by bounded search over the references `refs` of expression texts: the initial port is reached again
+at a level deeper than 1 -/
+def reach (refs : String → List String) (m : String → String) (target : String) : Nat → List String → Bool
+  | 0, _ => false
+  | f + 1, frontier =>
+    frontier.any (fun x => (refs (m x)).contains target || reach refs m target f (refs (m x)))
+
+def loopsWith (refs : String → List String) (fuel : Nat) : LoopCheck :=
+  fun m id c => reach refs m id fuel ((refs c).filter (fun x => x != id))
+
+def loopsFuel (fuel : Nat) : LoopCheck := loopsWith refsOf fuel
+
 structure BState where
   ports : String → Option Port
   device : Device
@@ -84,32 +165,21 @@ inductive PutResp where
   | ok
   | err (id : String) (e : EntryErr)
 
-/-- the port that the creation step of the loop body leaves registered under the entry's id, whatever happens to the
-attributes afterwards: a virtual port is added before its attributes are applied -/
-def createdFor (cfg : Cfg) (target : Option Port) (d : PortDoc) : Option Port :=
-  match target with
-  | some p => some p
-  | none =>
-    if d.virtual then
-      match d.vdef with
-      | some vd => some (setAttr cfg (fresh (vportDef cfg.hist vd)) "enabled" (.bool true)).1
-      | none => none
-    else none
-
-/-- the `try:` block of `put_ports` after the virtual ports have been dropped: entries in document order, the first
-failing entry raises an error carrying its id -/
-def putBody (cfg : Cfg) (ports : String → Option Port) : List PortDoc → (String → Option Port) × PutResp
+/-- the `try:` block of `put_ports` after the virtual ports have been dropped: entries in document order, each checked
+against the expressions the ports carry at that moment; the first failing entry raises an error carrying its id -/
+def putBody (cfg : Cfg) (lc : LoopCheck) (ports : String → Option Port) :
+    List PortDoc → (String → Option Port) × PutResp
   | [] => (ports, .ok)
   | d :: r =>
-    match restoreOn cfg (ports d.id) d with
+    match restoreChk cfg lc (exprMap ports) (ports d.id) d with
     | .error e => (upd ports d.id (createdFor cfg (ports d.id) d), .err d.id e)
-    | .ok none => putBody cfg ports r
-    | .ok (some q) => putBody cfg (upd ports d.id (some q)) r
+    | .ok none => putBody cfg lc ports r
+    | .ok (some q) => putBody cfg lc (upd ports d.id (some q)) r
 
 /-- PUT /ports: switches off, body, `finally:` switches on — whatever the outcome of the body -/
-def putPorts (cfg : Cfg) (st : BState) (docs : List PortDoc) : BState × PutResp :=
+def putPorts (cfg : Cfg) (lc : LoopCheck) (clearFirst : Bool) (st : BState) (docs : List PortDoc) : BState × PutResp :=
   let st1 := { st with events := false, updating := false }
-  let r := putBody cfg (fun id => afterReset (st1.ports id)) docs
+  let r := putBody cfg lc (fun id => startPort clearFirst (st1.ports id)) docs
   ({ st1 with ports := r.1, updating := true, events := true }, r.2)
 
 /-- GET /device carries names only; PUT /device pops the password fields: hashes are kept -/
